@@ -13,7 +13,7 @@ use barter_execution::{
     order::{
         Order, OrderKey, OrderKind, TimeInForce,
         id::{ClientOrderId, OrderId, StrategyId},
-        state::{ActiveOrderState, Open, OrderState},
+        state::{Open, OrderState},
     },
 };
 use barter_instrument::{
@@ -67,13 +67,16 @@ fn observe(engine: &TestEngine, maps: &Maps, lines: &mut Vec<String>) {
         for c in [1, 2] {
             lines.push(match orders.get(&ClientOrderId::new(c.to_string())).map(|o| &o.state) {
                 None => format!("ord{i}_{c} none"),
-                Some(ActiveOrderState::Open(o)) => format!(
-                    "ord{i}_{c} O({},{},{})",
-                    o.id.0,
-                    (o.time_exchange - t0()).num_milliseconds(),
-                    fmt_dec(o.filled_quantity)
-                ),
-                Some(_) => format!("ord{i}_{c} other"),
+                // the exchange-confirmed details, inside `Open` or inside `CancelInFlight`
+                Some(st) => match st.open_meta() {
+                    Some(o) => format!(
+                        "ord{i}_{c} O({},{},{})",
+                        o.id.0,
+                        (o.time_exchange - t0()).num_milliseconds(),
+                        fmt_dec(o.filled_quantity)
+                    ),
+                    None => format!("ord{i}_{c} F"),
+                },
             });
         }
     }
@@ -148,7 +151,7 @@ fn run() {
                         }),
                     });
                 }
-                "trade" | "l1" | "ord" => {
+                "trade" | "l1" | "ord" | "cancel" => {
                     let i: usize = op[1].parse().unwrap();
                     if i >= n {
                         lines.push("panic".into());
@@ -156,6 +159,19 @@ fn run() {
                     }
                     let idx = InstrumentIndex(maps.instruments[i]);
                     match op[0].as_str() {
+                        "cancel" => {
+                            use barter::engine::state::order::in_flight_recorder::InFlightRequestRecorder;
+                            use barter_execution::order::request::{OrderRequestCancel, RequestCancel};
+                            engine.state.record_in_flight_cancel(&OrderRequestCancel {
+                                key: OrderKey {
+                                    exchange: ExchangeIndex(0),
+                                    instrument: idx,
+                                    strategy: StrategyId::new("verif"),
+                                    cid: ClientOrderId::new(op[2].as_str()),
+                                },
+                                state: RequestCancel { id: None },
+                            });
+                        }
                         "trade" => {
                             let t = time_ms(op[2].parse().unwrap());
                             engine.state.update_from_market(&MarketEvent {
@@ -256,11 +272,17 @@ fn gen_case(rng: &mut Rng, out: &mut Out, tier: &str) {
                 let tl = if rng.chance(10) { rng.range(1, tmax) } else { t };
                 pool.push(format!("l1 {i} {t} {tl} {} 1 {} 2", 100 + uid, 200 + uid));
             }
-            _ => {
+            80..=94 => {
                 let i = rng.below(n as u64);
                 let c = rng.range(1, 2);
                 let filled = *rng.pick(&[0, 5]);
                 pool.push(format!("ord {i} {c} {uid} {t} {filled}"));
+            }
+            _ => {
+                // a cancel request for the order (delivered repeatedly like everything in the pool)
+                let i = rng.below(n as u64);
+                let c = rng.range(1, 2);
+                pool.push(format!("cancel {i} {c}"));
             }
         }
     }
@@ -278,7 +300,7 @@ fn generate(seed: u64, n_cases: usize, tier: &str) {
         // exhaustive: every delivery sequence of length <= 5 over the 6 messages
         // {balance, trade, l1, order} x ... restricted to one item each: 3 timestamps x 2 values per register kind
         for kind in 0..4 {
-            let msgs: Vec<String> = (1..=3)
+            let msgs: Vec<String> = (1..=3i64)
                 .flat_map(|t| (0..2).map(move |v| (t, v)))
                 .map(|(t, v)| match kind {
                     0 => format!("bal 0 {t} {} {}", 100 + t * 2 + v, 50 + v),
@@ -286,6 +308,7 @@ fn generate(seed: u64, n_cases: usize, tier: &str) {
                     2 => format!("l1 0 {t} {t} {} 1 {} 2", 100 + t * 2 + v, 200 + v),
                     _ => format!("ord 0 1 {} {t} {}", t * 2 + v, v * 5),
                 })
+                .chain(if kind == 3 { vec!["cancel 0 1".to_string()] } else { vec![] })
                 .collect();
             let a = msgs.len();
             for len in 1..=5usize {
